@@ -198,7 +198,10 @@ def run(ck, F):
         ab = fields.get("abbreviation")
         md = fields.get("rust_mod_name")
         uri = fields.get("namespace")
-        if ab and ab[0] == "call" and ab[1] == MAKE:
+        if ab and ab[0] == "call" and ab[1] == MAKE and len(ab[2]) < 2:
+            ck.violation("R2", "existing=<none>", site,
+                         f"{short}: {mshort} is not given the namespaces of the document to test the new abbreviation against", fn=fn)
+        elif ab and ab[0] == "call" and ab[1] == MAKE:
             existing = og.nf_str(ab[2][1])
             if existing == "self.namespaces":
                 ck.ok("R2", f"existing=self.namespaces", site, f"{short}: uniqueness checked against the registry of all namespaces", fn=fn)
